@@ -297,12 +297,27 @@ func (privVal *PrivValidator) signBytesHRS(height, round int64, step int8, signB
 	signature := privVal.Sign(signBytes)
 
 	// Persist height/round/step
+	prevHeight, prevRound, prevStep := privVal.LastHeight, privVal.LastRound, privVal.LastStep
+	prevSignature, prevSignBytes := privVal.LastSignature, privVal.LastSignBytes
 	privVal.LastHeight = height
 	privVal.LastRound = round
 	privVal.LastStep = step
 	privVal.LastSignature = signature
 	privVal.LastSignBytes = signBytes
-	privVal.save()
+	// A signer without a file (tests) has nothing to persist.
+	if privVal.filePath != "" {
+		if err := privVal.save(); err != nil {
+			// The record that forbids signing something else for this height/round/step
+			// is not on disk: the signature must not leave the signer. Go back to the
+			// state the file still holds, so that a retry signs and saves again.
+			privVal.LastHeight = prevHeight
+			privVal.LastRound = prevRound
+			privVal.LastStep = prevStep
+			privVal.LastSignature = prevSignature
+			privVal.LastSignBytes = prevSignBytes
+			return nil, fmt.Errorf("Could not persist the last signed height/round/step: %v", err)
+		}
+	}
 
 	return signature, nil
 
